@@ -29,6 +29,11 @@ PROPS = "yowsup/layers/axolotl/props.py"
 OVERWRITERS = ("trust_identity", "saveIdentity")
 
 
+def show_v(v):
+    from ..absint import show as _s
+    return _s(v)[:40]
+
+
 def rule_trust(ctx):
     repo = ctx.repo
     cls = repo.cls(IKS, "LiteIdentityKeyStore")
@@ -98,6 +103,181 @@ def autotrust_test(ctx, m, cls, fn, test_expr, autotrust_params):
     return False
 
 
+
+LIBEXC = ("ext", "UntrustedIdentityException", [])
+
+
+def _presented(v, which):
+    """is v the name / key carried by the library exception LIBEXC (accessor call or attribute)"""
+    names = {"name": ("getName", ".name", ".getName"), "key": ("getIdentityKey", ".identityKey", ".getIdentityKey")}[which]
+    return isinstance(v, tuple) and v[0] == "fn" and v[1] in names and any(x[:2] == LIBEXC[:2] for x in v[2] if isinstance(x, tuple))
+
+
+def run_create_session(repo, autotrust, raises, pass_flag=True):
+    """abstract execution of AxolotlManager.create_session with the session builder opaque; -> (outcome, trusted calls)"""
+    from ..absint import Interp, Obj, _Raise, C_NONE
+    cls = repo.cls(MGR, "AxolotlManager")
+    trusted = []
+
+    def process(itp, recv, a, k, env, d, e):
+        if raises:
+            raise _Raise(LIBEXC, "library raises UntrustedIdentityException")
+        return C_NONE
+
+    def trust(itp, fn, owner, self_val, a, k):
+        trusted.append(list(a))
+        return C_NONE
+    it = Interp(repo, {}, {}, hooks={"ext:*.processPreKeyBundle": process, "fn:trust_identity": trust})
+    o = Obj(cls)
+    o.fields["_store"] = ("ext", "store", [])
+    args = [("c", "peer"), ("ext", "bundle", [])] + ([("c", autotrust)] if pass_flag else [])
+    try:
+        it.method_call(("obj", o), "create_session", args, {}, {"@module": cls.module, "@owner": cls}, 0, None)
+    except _Raise as r:
+        return ("raise", r.exc), trusted
+    return ("ret", None), trusted
+
+
+def run_receive_untrusted(repo, autotrust):
+    """abstract execution of AxolotlReceivelayer.handleEncMessage when decryption raises the library's untrusted-identity
+    error once (a second attempt succeeds); autotrust: True / False / None (property never set).
+    -> (deliveries, trust calls, decrypt attempts, raised)"""
+    from ..absint import Interp, Obj, Node, _Raise, C_NONE, flat_effects
+    from ..layers import LayerRunner, symbolic_node
+    from ..consts import Evaluator as _E, alts as _a
+    cls = repo.cls(RECV, "AxolotlReceivelayer")
+    runner = LayerRunner(repo, {})
+    hooks = runner.hooks()
+    attempts, trusted = [], []
+
+    def decrypt(itp, recv, a, k, env, d, e):
+        attempts.append(1)
+        if len(attempts) == 1:
+            raise _Raise(LIBEXC, "library raises UntrustedIdentityException")
+        itp.emit("UP", ("ext", "decrypted", []), {})
+        return C_NONE
+    for h in ("handlePreKeyWhisperMessage", "handleWhisperMessage", "handleSenderKeyMessage"):
+        hooks["method:" + h] = decrypt
+    gp0 = hooks["method:getProp"]
+    pm = repo.module(PROPS)
+    PROP = None
+    for st in pm.tree.body:
+        if isinstance(st, ast.Assign) and isinstance(st.targets[0], ast.Name) and st.targets[0].id == "PROP_IDENTITY_AUTOTRUST" and isinstance(st.value, ast.Constant):
+            PROP = st.value.value
+
+    def getprop(itp, recv, a, k, env, d, e):
+        if a and a[0] == ("c", PROP):
+            if autotrust is None:
+                return a[1] if len(a) > 1 else C_NONE
+            return ("c", autotrust)
+        return gp0(itp, recv, a, k, env, d, e)
+    hooks["method:getProp"] = getprop
+
+    def trust(itp, recv, a, k, env, d, e):
+        trusted.append(list(a))
+        return C_NONE
+    hooks["method:trust_identity"] = trust
+    cell = {("A", (), "participant"): None, ("A", (), "from"): "<other>", ("A", (), "id"): "<other>"}
+    it = Interp(repo, cell, {}, hooks=hooks)
+    it.layer_base = runner.base
+    it.pure_depth = 0
+    layer = runner.make_layer(it, cls)
+    mgr = Obj(None)
+    layer[1].fields["_manager"] = ("obj", mgr)
+    node = symbolic_node("message")
+    encn = Node(("c", "enc"), None)
+    encn.attrs.update({"type": ("c", "pkmsg"), "v": ("c", "2")})
+    encn.data = ("ext", "ciphertext", [])
+    node[1].children.append(("one", encn))
+    node[1].path = None
+    node[1].attrs.update({"id": ("c", "MID"), "from": ("c", "peer@s.whatsapp.net"), "type": ("c", "text"), "t": ("c", "1")})
+    it.effects[:] = []
+    raised = None
+    try:
+        it.method_call(layer, "handleEncMessage", [node], {}, {"@module": cls.module, "@owner": cls}, 0, None)
+    except _Raise as r:
+        raised = r.text
+    ups = [e for e in flat_effects(it.effects) if e[0] == "UP"]
+    return ups, trusted, len(attempts), raised, PROP
+
+
+def run_key_fetch(repo):
+    """getKeysFor([good, bad], cb), then its success continuation with a reply carrying bundles for both; the manager's
+    create_session refuses `bad` with the layer's UntrustedIdentityException.  -> {success, errors, autotrust_args}"""
+    from ..absint import Interp, Obj, _Raise, C_NONE, show
+    from ..layers import LayerRunner
+    from ..repo import ClassInfo
+    cls = repo.cls(BASE, "AxolotlBaseLayer")
+    runner = LayerRunner(repo, {})
+    hooks = runner.hooks()
+    sent, got, asked = [], [], []
+    exc_cls = [c for c in repo.by_simple.get("UntrustedIdentityException", []) if c.relpath.startswith("yowsup/axolotl/")]
+    if not exc_cls:
+        return {"problem": "the layer's UntrustedIdentityException class was not found"}
+
+    def sendiq(itp, recv, a, k, env, d, e):
+        sent.append((list(a), dict(k)))
+        return C_NONE
+    hooks["method:_sendIq"] = sendiq
+
+    def create(itp, recv, a, k, env, d, e):
+        asked.append(k.get("autotrust", a[2] if len(a) > 2 else ("c", False)))
+        if a and a[0] == ("c", "bad"):
+            raise _Raise(("obj", Obj(exc_cls[0])), "UntrustedIdentityException")
+        return C_NONE
+    hooks["method:create_session"] = create
+    gp0 = hooks["method:getProp"]
+
+    def getprop(itp, recv, a, k, env, d, e):
+        if len(a) > 1:
+            return a[1]                 # nothing is configured: every option reads as its default
+        return gp0(itp, recv, a, k, env, d, e)
+    hooks["method:getProp"] = getprop
+    stub = ast.parse("class R:\n    def getJids(self):\n        return ['good@s.whatsapp.net', 'bad@s.whatsapp.net']\n    def getErrors(self):\n        return {}\n    def getPreKeyBundleFor(self, jid):\n        return __bundle__(jid)\n").body[0]
+    stubcls = ClassInfo(cls.module, stub)
+    stubcls.bases = []
+    stubcls._mro = [stubcls]
+    hooks["builtin:__bundle__"] = lambda itp, e, a, k, env, d: ("ext", "bundle", list(a))
+    hooks["classmethod:fromProtocolTreeNode"] = lambda itp, c, a, k, env, d, e: ("obj", Obj(stubcls))
+    hooks["builtin:__result__"] = lambda itp, e, a, k, env, d: (got.append(list(a)), C_NONE)[1]
+    it = Interp(repo, {}, {}, hooks=hooks)
+    it.layer_base = runner.base
+    it.pure_depth = 0
+    layer = runner.make_layer(it, cls)
+    layer[1].fields["_manager"] = ("obj", Obj(None))
+    lam = ast.parse("lambda ok, err: __result__(ok, err)", mode="eval").body
+    cb = ("closure", lam, {"@module": cls.module, "@owner": None}, None, None)
+    jids = ("list", [("c", "good@s.whatsapp.net"), ("c", "bad@s.whatsapp.net")])
+    try:
+        it.method_call(layer, "getKeysFor", [jids, cb], {}, {"@module": cls.module, "@owner": cls}, 0, None)
+        if len(sent) != 1 or len(sent[0][0]) < 2:
+            return {"problem": "getKeysFor registered %d request(s)" % len(sent)}
+        ent, on_success = sent[0][0][0], sent[0][0][1]
+        if ent[0] != "obj" or "jids" not in ent[1].fields:
+            req = Obj(None)
+            req.fields["jids"] = jids
+            ent = ("obj", req)
+        it.apply(on_success, [("ext", "resultNode", []), ent], {}, {}, 0, None)
+    except _Raise as r:
+        return {"problem": "raises %s" % r.text[:60]}
+    if len(got) != 1 or len(got[0]) != 2:
+        return {"problem": "the result callback was called %d time(s)" % len(got)}
+    ok, err = got[0]
+    succ = [x[1] for x in ok[1]] if ok[0] == "list" and all(x[0] == "c" for x in ok[1]) else None
+    errs = None
+    if err[0] == "dict":
+        errs = set()
+        for k_, v_ in err[1].items():
+            if isinstance(k_, tuple) and k_ and k_[0] == "dyn":
+                kk = v_[1][0]
+                errs.add(kk[1] if kk[0] == "c" else show(kk))
+            else:
+                errs.add(k_)
+    if succ is None or errs is None:
+        return {"problem": "callback arguments are not a list and a dict: %s / %s" % (show(ok)[:30], show(err)[:30])}
+    return {"success": succ, "errors": errs, "autotrust_args": asked}
+
+
 def rule_guard(ctx):
     repo = ctx.repo
     sites = 0
@@ -144,59 +324,58 @@ def rule_guard(ctx):
                         ctx.undecided("C17.guard", w, call, "call not found in the CFG (nested function?)")
                         continue
                     node = node[0]
-                    guarded = False
+                    # the call must be unreachable once the "switch on" edge of every auto-trust test is removed: whatever
+                    # the shape (if / else, `if not switch: raise`, a local holding the switch)
+                    locals_ = {}
+                    for a_ in ast.walk(fn):
+                        if isinstance(a_, ast.Assign) and len(a_.targets) == 1 and isinstance(a_.targets[0], ast.Name):
+                            locals_.setdefault(a_.targets[0].id, []).append(a_.value)
+                    on_edges = {}
                     for t in g.live:
-                        if t.kind == "test" and isinstance(t.stmt, ast.If) and autotrust_test(ctx, m, c, fn, t.stmt.test, (sp,) if sp else ()):
-                            reg = {x.id for x in edge_region(g, t, "true")}
-                            if node.id in reg:
-                                guarded = True
+                        if t.kind != "test" or not isinstance(t.stmt, (ast.If, ast.While)):
+                            continue
+                        te, neg = t.stmt.test, False
+                        while isinstance(te, ast.UnaryOp) and isinstance(te.op, ast.Not):
+                            te, neg = te.operand, not neg
+                        if isinstance(te, ast.Name) and te.id not in ((sp,) if sp else ()) and len(locals_.get(te.id, [])) == 1:
+                            te = locals_[te.id][0]
+                        if autotrust_test(ctx, m, c, fn, te, (sp,) if sp else ()):
+                            on_edges[t.id] = "false" if neg else "true"
+                    byp = g.path(g.entry, lambda x: x is node, edge_ok=lambda a, b, k: not (a.id in on_edges and k == on_edges[a.id])) if on_edges else True
+                    guarded = byp is None
                     ctx.check("C17.guard", guarded, w, call, "a pinned identity is overwritten without testing the auto-trust switch: a changed key is accepted silently", "dominated by the auto-trust test")
     ctx.units["C17.overwrite_sites"] = sites
 
 
 def rule_refuse(ctx):
     repo = ctx.repo
-    # (a) create_session: handler's non-autotrust branch raises the yowsup exception with the same name/key
+    # (a) create_session, abstractly executed with the library refusing the bundle: without auto-trust (flag False, or not
+    # passed at all) the layer's own untrusted-identity error is raised and nothing is stored
     cs = repo.method(MGR, "AxolotlManager", "create_session")
     w = where(MGR, "AxolotlManager.create_session", cs.lineno)
-    h = [x for x in ast.walk(cs) if isinstance(x, ast.ExceptHandler) and x.type is not None and "UntrustedIdentityException" in unparse(x.type)]
-    ok = False
-    if len(h) == 1:
-        ifs = [s for s in h[0].body if isinstance(s, ast.If)]
-        if len(ifs) == 1:
-            other = ifs[0].orelse
-            ok = any(isinstance(s, ast.Raise) and s.exc is not None and "UntrustedIdentityException" in unparse(s.exc) for s in other)
-    ctx.check("C17.refuse", ok, w, "except UntrustedIdentityException", "without auto-trust create_session must re-raise the untrusted-identity error", "re-raised when auto-trust is off")
-    # (b) getKeysFor.onSuccess: untrusted jid goes to errors, not to successes
+    oks = []
+    for pass_flag in (True, False):
+        (out, exc), trusted = run_create_session(repo, False, True, pass_flag=pass_flag)
+        mine = out == "raise" and ((exc[0] == "obj" and exc[1].cls is not None and exc[1].cls.name == "UntrustedIdentityException" and exc[1].cls.module.name.startswith("yowsup"))
+                                   or (exc[0] == "fn" and exc[1] == "UntrustedIdentityException" and any(isinstance(x, tuple) and x[:1] == ("ext",) and "yowsup.axolotl.exceptions" in x[1] for x in exc[2])))
+        oks.append(mine and not trusted)
+    (out_ok, _x), t_ok = run_create_session(repo, False, False)
+    ctx.check("C17.refuse", all(oks) and out_ok == "ret" and not t_ok, w, "except UntrustedIdentityException", "without auto-trust create_session must re-raise the untrusted-identity error (flag False: %s, flag omitted: %s)" % tuple(oks), "re-raised when auto-trust is off")
+    # (b) the key-fetch callback, abstractly executed for a reply with keys for two jids of which the second presents an
+    # identity the store refuses: the result callback gets the first jid as success and the second filed under the
+    # errors; create_session is asked with the auto-trust property (default off)
     gk = repo.method(BASE, "AxolotlBaseLayer", "getKeysFor")
-    onS = [n for n in ast.walk(gk) if isinstance(n, ast.FunctionDef) and n.name == "onSuccess"]
     wb = where(BASE, "AxolotlBaseLayer.getKeysFor.onSuccess", gk.lineno)
-    if len(onS) != 1:
-        ctx.undecided("C17.refuse", wb, gk, "onSuccess closure not found")
+    res = run_key_fetch(repo)
+    if res.get("problem"):
+        ctx.undecided("C17.refuse", wb, gk, "key-fetch callback could not be followed: %s" % res["problem"])
     else:
-        g = CFG(onS[0])
-        hn = [n for n in g.live if n.kind == "handler" and n.stmt.type is not None and "UntrustedIdentityException" in unparse(n.stmt.type)]
-        succ_appends = [n for n in g.live if n.kind == "stmt" and any(isinstance(c, ast.Call) and isinstance(c.func, ast.Attribute) and c.func.attr == "append"
-                        and "success" in unparse(c.func.value).lower() for c in walk_no_nested(n.stmt))]
-        loops = [n for n in g.live if n.kind == "loop"]
-        if len(hn) != 1 or not succ_appends or not loops:
-            ctx.violate("C17.refuse", wb, onS[0], "the key-fetch callback must catch the untrusted-identity error per jid and keep that jid out of the success list")
-        else:
-            # from the handler, the success append of the *same iteration* is unreachable (only via the loop head)
-            p = g.path(hn[0], lambda x: x in succ_appends, avoid=loops)
-            ctx.check("C17.refuse", p is None, wb, hn[0].stmt, "after the untrusted-identity error the jid is still added to the success list: " + fmt_path(p), "untrusted jid never reaches the success list")
-            stores = [n for n in g.reachable_from(hn[0], avoid=loops) if n.kind == "stmt" and isinstance(n.stmt, ast.Assign)
-                      and any(isinstance(t, ast.Subscript) and "error" in unparse(t.value).lower() for t in n.stmt.targets)]
-            ctx.check("C17.refuse", bool(stores), wb, "errorJids[jid] = e", "the untrusted jid must be filed under the errors", "filed under errors")
-            # the success append lies after create_session in the try body (an exception skips it)
-            tries = [n for n in ast.walk(onS[0]) if isinstance(n, ast.Try)]
-            okorder = False
-            for t in tries:
-                idx_c = [i for i, s in enumerate(t.body) if any(isinstance(c, ast.Call) and isinstance(c.func, ast.Attribute) and c.func.attr == "create_session" for c in ast.walk(s))]
-                idx_a = [i for i, s in enumerate(t.body) if any(isinstance(c, ast.Call) and isinstance(c.func, ast.Attribute) and c.func.attr == "append" and "success" in unparse(c.func.value).lower() for c in ast.walk(s))]
-                if idx_c and idx_a and idx_c[0] < idx_a[0]:
-                    okorder = True
-            ctx.check("C17.refuse", okorder, wb, "successJids.append after create_session", "a jid must count as success only after create_session returned", "success recorded after the session was built")
+        succ, errs = res["success"], res["errors"]
+        ctx.check("C17.refuse", succ == ["good@s.whatsapp.net"], wb, "untrusted jid never reaches the success list",
+                  "after the untrusted-identity error the jid is still added to the success list (or a good one is missing): success list %s" % succ, "untrusted jid never reaches the success list")
+        ctx.check("C17.refuse", "bad@s.whatsapp.net" in errs and "good@s.whatsapp.net" not in errs, wb, "errorJids[jid] = e", "the untrusted jid must be filed under the errors (errors: %s)" % sorted(errs), "filed under errors")
+        ctx.check("C17.refuse", res["autotrust_args"] == [("c", False), ("c", False)], wb, "create_session asked with the auto-trust property, default off",
+                  "a jid must count as success only after create_session returned, and create_session must be given the auto-trust property (default off); it was given %s" % [show_v(x) for x in res["autotrust_args"]], "success recorded after the session was built")
     # (c) send-side callbacks: with errors present nothing is sent to a single recipient
     snd = repo.cls(SEND, "AxolotlSendLayer")
     n_cb = 0
@@ -235,40 +414,33 @@ def rule_refuse(ctx):
                 ctx.check("C17.refuse", not bad, wcb, t.stmt, "; ".join(bad), "nothing is encrypted for a jid whose identity was refused")
     if n_cb < 3:
         ctx.undecided("C17.refuse", where(SEND, "AxolotlSendLayer", None), "on_get_keys_success closures", "expected 3 key-fetch success callbacks in the send layer, found %d" % n_cb)
-    # (d) receive handler: else-branch neither delivers nor stores
+    # (d) receive handler, abstractly executed with decryption refused once: auto-trust off (or never configured) ->
+    # nothing is delivered, nothing stored, no second attempt
     he = repo.method(RECV, "AxolotlReceivelayer", "handleEncMessage")
     wr = where(RECV, "AxolotlReceivelayer.handleEncMessage", he.lineno)
-    h = [x for x in ast.walk(he) if isinstance(x, ast.ExceptHandler) and x.type is not None and "UntrustedIdentityException" in unparse(x.type)]
-    if len(h) != 1:
-        ctx.violate("C17.refuse", wr, he, "the receive handler must catch the untrusted-identity error")
-        return
-    ifs = [s for s in h[0].body if isinstance(s, ast.If)]
-    okr = False
-    if len(ifs) == 1 and len(h[0].body) == 1:
-        names = {c.func.attr for s in ifs[0].orelse for c in ast.walk(s) if isinstance(c, ast.Call) and isinstance(c.func, ast.Attribute)}
-        okr = not (names & {"toUpper", "trust_identity", "saveIdentity", "handleEncMessage", "toLower"})
-    ctx.check("C17.refuse", okr, wr, "except UntrustedIdentityException (auto-trust off)", "with auto-trust off the message must neither be delivered nor the key stored", "ignored: no delivery, no store")
+    oks = []
+    for flag in (False, None):
+        ups, trusted, attempts, raised, PROP = run_receive_untrusted(repo, flag)
+        oks.append(not ups and not trusted and attempts == 1 and raised is None)
+    ctx.check("C17.refuse", all(oks), wr, "except UntrustedIdentityException (auto-trust off)", "with auto-trust off the message must neither be delivered nor the key stored (option off: %s, option never set: %s)" % tuple(oks), "ignored: no delivery, no store")
 
 
 def rule_auto(ctx):
     repo = ctx.repo
-    for rel, cn, fn_name in ((RECV, "AxolotlReceivelayer", "handleEncMessage"), (MGR, "AxolotlManager", "create_session")):
-        fn = repo.method(rel, cn, fn_name)
-        w = where(rel, cn + "." + fn_name, fn.lineno)
-        h = [x for x in ast.walk(fn) if isinstance(x, ast.ExceptHandler) and x.type is not None and "UntrustedIdentityException" in unparse(x.type) and x.name]
-        if len(h) != 1:
-            ctx.undecided("C17.auto", w, fn, "named untrusted-identity handler not found")
-            continue
-        e = h[0].name
-        calls = [c for c in ast.walk(h[0]) if isinstance(c, ast.Call) and isinstance(c.func, ast.Attribute) and c.func.attr == "trust_identity"]
-        ok = len(calls) == 1 and [unparse(a) for a in calls[0].args] == ["%s.getName()" % e, "%s.getIdentityKey()" % e]
-        ctx.check("C17.auto", ok, w, calls[0] if calls else h[0], "auto-trust must store the name and key carried by the exception (the presented identity)", "stores the presented name and key")
+    # with auto-trust on, what gets stored is the identity the library's exception presents - both where the switch is
+    # honoured: the receive handler and create_session (abstract execution, see run_receive_untrusted / run_create_session)
+    he = repo.method(RECV, "AxolotlReceivelayer", "handleEncMessage")
+    w = where(RECV, "AxolotlReceivelayer.handleEncMessage", he.lineno)
+    ups, trusted, attempts, raised, PROP = run_receive_untrusted(repo, True)
+    ok = len(trusted) == 1 and len(trusted[0]) == 2 and _presented(trusted[0][0], "name") and _presented(trusted[0][1], "key") and raised is None
+    ctx.check("C17.auto", ok, w, "auto-trust stores the presented identity", "auto-trust must store the name and key carried by the exception (the presented identity); stored %s" % [[show_v(x) for x in t] for t in trusted], "stores the presented name and key")
+    cs = repo.method(MGR, "AxolotlManager", "create_session")
+    wc = where(MGR, "AxolotlManager.create_session", cs.lineno)
+    (out, exc), trusted2 = run_create_session(repo, True, True)
+    ok2 = out == "ret" and len(trusted2) == 1 and len(trusted2[0]) == 2 and _presented(trusted2[0][0], "name") and _presented(trusted2[0][1], "key")
+    ctx.check("C17.auto", ok2, wc, "auto-trust stores the presented identity", "auto-trust must store the name and key carried by the exception (the presented identity); create_session %s and stored %s" % (out, [[show_v(x) for x in t] for t in trusted2]), "stores the presented name and key")
     # after auto-trusting, the receive path retries the message
-    fn = repo.method(RECV, "AxolotlReceivelayer", "handleEncMessage")
-    h = [x for x in ast.walk(fn) if isinstance(x, ast.ExceptHandler) and x.type is not None and "UntrustedIdentityException" in unparse(x.type)][0]
-    ifs = [s for s in h.body if isinstance(s, ast.If)]
-    ok = bool(ifs) and any(isinstance(c, ast.Call) and is_self_attr(c.func, "handleEncMessage") for s in ifs[0].body for c in ast.walk(s))
-    ctx.check("C17.auto", ok, where(RECV, "AxolotlReceivelayer.handleEncMessage", fn.lineno), "retry after auto-trust", "after auto-trusting the message must be processed again so that messaging resumes", "message re-processed")
+    ctx.check("C17.auto", attempts == 2 and len(ups) == 1, w, "retry after auto-trust", "after auto-trusting the message must be processed again so that messaging resumes (%d decrypt attempt(s), %d delivery)" % (attempts, len(ups)), "message re-processed")
     # trust_identity delegates to the store with the same arguments, in order
     ti = repo.method(MGR, "AxolotlManager", "trust_identity")
     calls = [c for c in ast.walk(ti) if isinstance(c, ast.Call) and isinstance(c.func, ast.Attribute) and c.func.attr == "saveIdentity"]
